@@ -5824,10 +5824,10 @@ class Path(Shape, MutableSequence):
         else:
             s = args[0]
             if isinstance(s, Subpath):
-                self._segments.extend(s.segments(transformed=False))
+                self._segments.extend(map(copy, s.segments(transformed=False)))
                 Shape.__init__(self, s._path)
             elif isinstance(s, Shape):
-                self._segments.extend(s.segments(transformed=False))
+                self._segments.extend(map(copy, s.segments(transformed=False)))
             elif isinstance(s, str):
                 self._segments = list()
                 self.parse(s)
@@ -5849,11 +5849,7 @@ class Path(Shape, MutableSequence):
                 self.values["pathd_loaded"] = True
 
     def __copy__(self):
-        path = Path(self)
-        segs = path._segments
-        for i in range(0, len(segs)):
-            segs[i] = copy(segs[i])
-        return path
+        return Path(self)
 
     def __getitem__(self, index):
         return self._segments[index]
